@@ -122,6 +122,7 @@ def gen(rng, tier):
             shared = None
     return {"feats": feats, "custom": custom, "kw": kw, "form": rng.choice(["path", "string", "list", "gen"]), "shared": shared,
             "after": rng.choice(["none", "reopen", "restart", "restart"]), "fault": fault, "updates": updates, "pair": pair,
+            "base_no_trailing_semicolon": rng.random() < 0.35,
             # no two lines of these inputs share a key, so every strategy must give the same database
             "strategy": rng.choice(["error", "error", "create_unique", "replace", "warning", "merge"])}
 
@@ -248,7 +249,8 @@ def run(case):
             return r
 
         node = w.node()
-        spec = G.source_spec(None, case["feats"], form=case["form"], d=G.DEFAULT_GTF)
+        base_d = dict(G.DEFAULT_GTF, trail=False) if case.get("base_no_trailing_semicolon") else G.DEFAULT_GTF
+        spec = G.source_spec(None, case["feats"], form=case["form"], d=base_d)
         req = {"op": "create", "h": "h", "db": "a.db", "data": spec, "kw": dict(kw, merge_strategy=strategy0)}
         if case["custom"] or case.get("shared"):
             req["id_spec"] = id_spec
@@ -295,10 +297,10 @@ def run(case):
                             break
                         call(node, {"op": "gc"})
                         probes["update_failed_then_retried_on_same_handle"] = 1
-                    ud = G.DEFAULT_GTF
+                    ud = base_d
                     if upd.get("other_punctuation"):
-                        # the update file is written with other punctuation than the imported one (no trailing semicolon)
-                        ud = dict(G.DEFAULT_GTF, trail=False)
+                        # the update file is written with other punctuation than the imported one (trailing semicolon or not)
+                        ud = dict(G.DEFAULT_GTF, trail=not base_d.get("trail", True))
                         probes["update_in_other_gtf_punctuation"] = 1
                     ur = call(node, {"op": "update", "h": "h", "data": G.source_spec(None, upd["feats"], form=upd["form"], d=ud), "kw": ukw})
                     if not ur["ok"]:
